@@ -912,10 +912,18 @@ Lemma esc_ok w h t i f : WFs w h t -> okres w h (esc t i f).
 Proof.
   intros H; unfold esc; cbv zeta.
   repeat case_if;
-    first [ now apply ind_ok | now apply nel_ok | now apply ri_ok | now apply ris_ok
-          | apply okres_ok;
-            first [ now apply decsc_ok | now apply decrc_ok | now apply hts_ok
-                  | now apply WFs_set_cs | unfold set_des; now apply WFs_set_cs | assumption ] ].
+    lazymatch goal with
+    | |- okres _ _ (ind _) => now apply ind_ok
+    | |- okres _ _ (nel _) => now apply nel_ok
+    | |- okres _ _ (ri _) => now apply ri_ok
+    | |- okres _ _ (ris _) => now apply ris_ok
+    | |- okres _ _ (TOk (decsc _)) => apply okres_ok, decsc_ok; assumption
+    | |- okres _ _ (TOk (decrc _)) => apply okres_ok, decrc_ok; assumption
+    | |- okres _ _ (TOk (hts _)) => apply okres_ok, hts_ok; assumption
+    | |- okres _ _ (TOk (set_cs _ _)) => apply okres_ok, WFs_set_cs; assumption
+    | |- okres _ _ (TOk (set_des _ _ _)) => apply okres_ok; unfold set_des; apply WFs_set_cs; assumption
+    | |- okres _ _ (TOk _) => apply okres_ok; assumption
+    end.
 Qed.
 
 Lemma fold_params_ok w h (f : term -> Z -> tres term) params :
@@ -972,25 +980,51 @@ Proof.
   eexists; split; [reflexivity | apply clamp_ps_range].
 Qed.
 
+Ltac csi_branch :=
+  lazymatch goal with
+  | |- okres _ _ (ich _ _) => now apply ich_ok
+  | |- okres _ _ (cup _ _) => now apply cup_ok
+  | |- okres _ _ (ed _ _) => now apply ed_ok
+  | |- okres _ _ (el _ _) => now apply el_ok
+  | |- okres _ _ (il _ _) => now apply il_ok
+  | |- okres _ _ (dl _ _) => now apply dl_ok
+  | |- okres _ _ (dch _ _) => now apply dch_ok
+  | |- okres _ _ (ech _ _) => now apply ech_ok
+  | |- okres _ _ (rep _ _) => now apply rep_ok
+  | |- okres _ _ (decstbm _ _) => now apply decstbm_ok
+  | |- okres _ _ (sgr _ _) => now apply sgr_ok
+  | |- okres _ _ (scroll_up _ _) => apply scroll_up_ok; [assumption | lia]
+  | |- okres _ _ (scroll_down _ _) => apply scroll_down_ok; [assumption | lia]
+  | |- okres _ _ (fold_params (sm1 _) _ _) => apply fold_params_ok; auto; intros; now apply sm1_ok
+  | |- okres _ _ (fold_params decset1 _ _) => apply fold_params_ok; auto; intros; now apply decset1_ok
+  | |- okres _ _ (fold_params decrst1 _ _) => apply fold_params_ok; auto; intros; now apply decrst1_ok
+  | |- okres _ _ (TOk (cuu _ _)) => apply okres_ok, cuu_ok; [assumption | lia]
+  | |- okres _ _ (TOk (cud _ _)) => apply okres_ok, cud_ok; [assumption | lia]
+  | |- okres _ _ (TOk (cuf _ _)) => apply okres_ok, cuf_ok; [assumption | lia]
+  | |- okres _ _ (TOk (cub _ _)) => apply okres_ok, cub_ok; [assumption | lia]
+  | |- okres _ _ (TOk (cnl _ _)) => apply okres_ok, cnl_ok; [assumption | lia]
+  | |- okres _ _ (TOk (cpl _ _)) => apply okres_ok, cpl_ok; [assumption | lia]
+  | |- okres _ _ (TOk (cha _ _)) => apply okres_ok, cha_ok; [assumption | lia]
+  | |- okres _ _ (TOk (hpa _ _)) => apply okres_ok, hpa_ok; [assumption | lia]
+  | |- okres _ _ (TOk (hpr _ _)) => apply okres_ok, hpr_ok; [assumption | lia]
+  | |- okres _ _ (TOk (vpa _ _)) => apply okres_ok, vpa_ok; [assumption | lia]
+  | |- okres _ _ (TOk (vpr _ _)) => apply okres_ok, vpr_ok; [assumption | lia]
+  | |- okres _ _ (TOk (cht _ _)) => apply okres_ok, cht_ok; assumption
+  | |- okres _ _ (TOk (cbt _ _)) => apply okres_ok, cbt_ok; assumption
+  | |- okres _ _ (TOk (tbc _ _)) => apply okres_ok, tbc_ok; assumption
+  | |- okres _ _ (TOk (decsc _)) => apply okres_ok, decsc_ok; assumption
+  | |- okres _ _ (TOk (decrc _)) => apply okres_ok, decrc_ok; assumption
+  | |- okres _ _ (TOk (set_shape _ _)) => apply okres_ok, WFs_set_shape; assumption
+  | |- okres _ _ (TOk _) => apply okres_ok; assumption
+  end.
+
 Lemma csi_ok w h t inter params final :
   WFs w h t -> Forall nonempty params -> okres w h (csi t inter params final).
 Proof.
   intros H Hne; unfold csi, with_ps; cbv zeta.
   destruct (ps_of_ok params Hne) as [v [Ev Hv]]; rewrite Ev; cbn [tbind].
   assert (Hd : 0 <= dflt1 v) by (pose proof (dflt1_pos v); lia).
-  repeat case_if;
-    first [ now apply ich_ok | now apply cup_ok | now apply ed_ok | now apply el_ok
-          | now apply il_ok | now apply dl_ok | now apply dch_ok | now apply ech_ok
-          | now apply rep_ok | now apply decstbm_ok | now apply sgr_ok
-          | apply scroll_up_ok; auto; lia | apply scroll_down_ok; auto; lia
-          | apply fold_params_ok; auto; intros; first [now apply sm1_ok | now apply decset1_ok | now apply decrst1_ok]
-          | apply okres_ok;
-            first [ apply cuu_ok; auto; lia | apply cud_ok; auto; lia | apply cuf_ok; auto; lia
-                  | apply cub_ok; auto; lia | apply cnl_ok; auto; lia | apply cpl_ok; auto; lia
-                  | apply cha_ok; auto; lia | now apply cht_ok | now apply cbt_ok | now apply tbc_ok
-                  | apply hpa_ok; auto; lia | apply hpr_ok; auto; lia | apply vpa_ok; auto; lia
-                  | apply vpr_ok; auto; lia | now apply decsc_ok | now apply decrc_ok
-                  | now apply WFs_set_shape | assumption ] ].
+  repeat case_if; csi_branch.
 Qed.
 
 (* ------------------------------------------------------------------ resize *)
